@@ -22,7 +22,20 @@ def main(argv=None):
                     help="self-test: print the execution digest of the first N runs (through the pool), write nothing")
     a = ap.parse_args(argv)
 
-    want_hs = os.environ.get("VERIF_HASHSEED", "0")     # self-test only: run under another hash seed
+    # String hash randomisation is a source of nondeterminism too: the interpreter's hash seed is derived from VERIF_SEED
+    # (0 -> 0), so different seeds exercise different string-set / dict-collision orders while one seed stays exactly
+    # repeatable.  A replay runs under the hash seed recorded in its file; VERIF_HASHSEED overrides (self-tests).
+    want_hs = os.environ.get("VERIF_HASHSEED")
+    if want_hs is None:
+        if a.replay:
+            try:
+                import json
+                want_hs = str(json.load(open(a.replay)).get("hashseed", 0))
+            except Exception:
+                want_hs = "0"
+        else:
+            vs = a.seed if a.seed is not None else int(os.environ.get("VERIF_SEED", "0") or 0)
+            want_hs = str((vs * 2654435761) % 4294967295 if vs else 0)
     if os.environ.get("PYTHONHASHSEED") != want_hs:
         env = dict(os.environ)
         env["PYTHONHASHSEED"] = want_hs
